@@ -29,6 +29,16 @@ RULES = {
    "n, n := a, b is accepted (Go: n repeated on left side of :=)", "type_var_and_const.go newValueDecl"),
   ("KF-C01-10", "untyped-nil-accepted-without-a-type", r'^accepted-although-untyped-nil/',
    "x := nil, var x = nil and _ = nil are accepted and emitted (Go: use of untyped nil)", "type_var_and_const.go endInit (DefaultConv of untyped nil), codebuild.go doAssignWith"),
+  ("KF-C01-11", "index-and-slice-operands-not-checked", r'^accepted-although-(badindex|negindex|outofrange|inverted)/(index|slice)/',
+   "a[i], a[lo:hi:max]: the index operands are not checked: non-integer indices (1.5, \"s\", a float64 variable), negative constants, constants beyond the length of an array / constant string and inverted constant bounds are accepted and emitted", "util_gengo.go Index / Slice: only the operand kind is looked at"),
+  ("KF-C01-12", "slice-of-a-map-accepted", r'^accepted-although-notsliceable/slice/map$',
+   "m[lo:hi] for a map m is accepted and emitted (Go: cannot slice m)", "util_gengo.go Slice: *types.Map falls into the default branch"),
+  ("KF-C01-13", "map-index-key-not-checked", r'^accepted-although-key/index/map$',
+   "m[k] with a key not assignable to the map's key type (vm[1], vm[vi] for map[string]int) is accepted", "util_gengo.go Index: map branch takes the element type without matching the key"),
+  ("KF-C01-14", "literal-keys-not-checked-for-duplicates-or-sign", r'^accepted-although-(dupkey|negkey)/(array|slice|map)-literal$|^accepted-although-dupfield/struct-literal',
+   "composite literals accept duplicate constant keys ([]int{0: 1, 0: 2}, map[string]int{\"s\": 1, \"s\": 2}, S{a: 1, a: 2}) and negative indices ([]int{-1: 1})", "util_gengo.go SliceLitEx / ArrayLitEx / MapLitEx / StructLit"),
+  ("KF-C01-15", "keyed-array-literal-skips-the-element-range-check", r'^accepted-although-elem/array-literal$',
+   "[2]int8{1: 300, 0: 1}: in a keyed array literal an element constant that is not representable in the element type is accepted", "util_gengo.go ArrayLitEx keyVal branch"),
   ("KF-C01-6", "comparison-accepts-mismatched-or-unrepresentable-operands", r'^accepted-although-(mismatched|notrepresentable)/(equality|ordering) \[.*var',
    "== / != / < with a variable accept mismatched defined types (MyInt == int) and untyped constants not representable in the variable's type (v_int8 == 300)", "template.go ComparableTo / untypedComparable (see C05 findings 4-6)"),
  ],
@@ -39,6 +49,8 @@ RULES = {
    "1.5 != 0 (fractional untyped float against untyped int/rune constant, float on the left) is rejected while 0 != 1.5 is accepted", "template.go untypedComparable asymmetry"),
   ("KF-C02-3", "float-constant-in-integer-remainder-faults", r'^fault-on-valid-expression/% ',
    "0.0 % c_int / c_int % 2.0 (untyped float constant with integral value, valid after conversion to the integer type) dies inside go/constant (invalid binary operation)", "ast.go binaryOp folds without converting the untyped operand"),
+  ("KF-C02-5", "integral-float-constant-rejected-as-literal-key", r'^rejected-valid/((array|slice|map)-literal/integral-float-key|struct-literal/\S+/integral-float-value)$',
+   "[]int{1.0: 5}, [2]int{1.0: 5}, map[int]string{1.0: \"s\"}, S{1.0, \"s\"} (field a int): an untyped float constant with integral value is a valid index / int key / int value (same family as KF-C02-1) and is rejected", "util_gengo.go literal key handling; template.go assignableTo (untyped float to integer types)"),
   ("KF-C02-4", "exposed-composite-literal-in-statement-header-not-parenthesised", r'^emitted-code-does-not-parse/[a-z-]+/literal-exposed/',
    "a composite literal of a named type that is exposed in an if / for / switch / range header (if N{v: 1}.ok {, for i := N{v: 1}.v; .., switch N{v: 1}.M().v {) is emitted without the parentheses Go requires there: the output does not parse. Only operands of binary operators and switch tags are protected, and only through plain selector chains (CheckParenExpr)", "internal/target/util/util_gengo.go:85 CheckParenExpr, called from ast.go:847, codebuild.go:1885, util_gengo.go:1095 only"),
  ],
@@ -73,6 +85,8 @@ RULES = {
    "an operator applied to typed constants reports the untyped kind instead of the operand type (c_int + 1 has type int, reported untyped int)", "ast.go result type mapping for instrFlagUntyped (806-828)"),
   ("KF-C03-2", "untyped-rune-decays-to-untyped-int", r'^type untyped rune reported as untyped int ',
    "'a' + 1, -'a', 'a' << 1 are untyped rune constants in Go and reported as untyped int", "ast.go untyped kind of folded results"),
+  ("KF-C03-4", "slice-of-a-constant-string-reported-untyped", r'^type string reported as untyped string \[slice\]$',
+   "\"abc\"[0:1] has type string in Go (slicing a constant string gives a non-constant string); the builder reports untyped string", "util_gengo.go Slice: the operand's untyped type is kept"),
   ("KF-C03-3", "untyped-int-shift-by-float-count-reported-untyped-float", r'^type untyped int reported as untyped float \[constant-operands, shift\]$',
    "1 << 2.0 is an untyped int constant; the builder reports untyped float (the kind of the count)", "builtin_gengo.go shift result kind"),
  ],
